@@ -8,7 +8,7 @@ Import ListNotations.
 Require Import CV.Orient CV.FreeSpace CV.Circuit CV.CircuitProofs CV.Hpwl CV.Moves CV.MovesProofs CV.MovesOrientProofs CV.Optimiser CV.ShiftLp.
 Require Import CV.Legalizer CV.LegalizerProofs CV.LegalizerSoundProofs CV.DetailedInit CV.DetailedInitProofs CV.DetailedExport CV.DetailedExportProofs.
 Require Import CV.DetailedValue CV.DetailedValueProofs CV.DetailedValueStepProofs CV.RowNeigh CV.Reorder.
-Require Import CV.DetailedRun CV.DetailedRunProofs CV.DetailedRunStructProofs CV.DetailedRunTermProofs CV.DetailedRunTotalProofs CV.DetailedRunCircuitProofs.
+Require Import CV.DetailedRun CV.DetailedRunProofs CV.DetailedRunStructProofs CV.DetailedRunTermProofs CV.DetailedRunTotalProofs CV.DetailedRunCircuitProofs CV.DetailedRunShiftProofs.
 Local Open Scope Z_scope.
 
 (* [F] the list-structure argument: with unique ids, a swap puts the partner c2 at the place of c1 -- as many cells after it
@@ -128,6 +128,86 @@ Proof.
   eexists _, _. split; [vm_compute; reflexivity|]. vm_compute. repeat split; reflexivity.
 Qed.
 
+(* ======================================================================================================== *)
+(* The shift pass with its DRIVER closed (DetailedRun.run_shifts / run_passes_c / place_detailed_model_c): runShifts and
+   runShiftsOnRows are modelled (row sets r, rowsBelow(r), rowsAbove(r) for r = 0, nbRows/2, ...; cell list; windows; overlap), so
+   the model decides which cells every runShiftsOnCells call receives.  The oracle is ONLY lemon's answer to each call (potentials
+   and flows, with the cells and labelled arcs of the call for cross-checking), and the model accepts an answer only through the
+   proved checker ShiftLp.shift_cert_ok.  No hypothesis on the oracle is left:  ok_or_oracle r Q  = "r = ROk a with Q a, or
+   r = RErr EOracle / RErr ERecord (an answer is missing or rejected / a record does not fit the model's call)". *)
+
+(* [F] the rows handed to runShiftsOnRows are distinct: "The given cells are not unique" cannot be thrown *)
+Theorem c02_shift_row_sets_have_no_repetition : forall rects k r, NoDup (r :: rows_below rects k r ++ rows_above rects k r).
+Proof. exact shift_rows_nodup. Qed.
+
+(* [F] runShifts(nbRows, maxNbCells), maxNbCells >= 2 (run() calls it only then), every nbRows: an accepted history or an oracle stop *)
+Theorem c02_run_shifts_is_accepted_history : forall c rh nets, std_design c rh -> forall s answers nbRows m,
+  PInv c rh nets s -> 2 <= m ->
+  ok_or_oracle (run_shifts (s, answers) nbRows m)
+    (fun st' => steps_to s (fst st') /\ PInv c rh nets (fst st') /\ ovalue (ps_o (fst st')) <= ovalue (ps_o s)).
+Proof. exact run_shifts_accepted. Qed.
+
+(* [F] run() with the closed shift driver, parameters accepted by check(): a chain of accepted histories through the callbacks, or an
+   oracle stop; never a fuel error, a throw, an unplaced cell, undefined behaviour *)
+Theorem c02_run_passes_closed_is_accepted_history : forall c rh nets, std_design c rh -> forall p answers s,
+  params_ok p = true -> PInv c rh nets s ->
+  ok_or_oracle (run_passes_c p answers s)
+    (fun r => let '(s', ex, _) := r in chain s ex s' /\ PInv c rh nets s' /\
+              Forall (fun e => PInv c rh nets e /\ ovalue (ps_o s') <= ovalue (ps_o e) <= ovalue (ps_o s)) ex).
+Proof. exact run_passes_c_accepted. Qed.
+
+(* [F] MAIN, Circuit level, shift driver closed *)
+Theorem c02_place_detailed_closed_returns_legal : forall c rh nets, std_design c rh -> legal c -> forall p answers d0,
+  from_circuit c = DOk d0 -> params_ok p = true ->
+  ok_or_oracle (place_detailed_model_c c nets p answers)
+    (fun r => let '(c', exs, _) := r in legal c' /\ frame c c' rh /\ Forall (fun e => legal e /\ frame c e rh) exs).
+Proof. exact place_detailed_c_legal. Qed.
+
+Theorem c04_place_detailed_closed_orient_ok : forall c rh nets, std_design c rh -> legal c -> forall before p answers d0,
+  from_circuit c = DOk d0 -> orient_ok before c -> (forall r, In r (rows c) -> ro r <> oUNKNOWN) -> params_ok p = true ->
+  ok_or_oracle (place_detailed_model_c c nets p answers)
+    (fun r => let '(c', exs, _) := r in orient_ok before c' /\ Forall (orient_ok before) exs).
+Proof. exact place_detailed_c_orient. Qed.
+
+(* non-vacuity: exrun with ONE pass, shiftNbRows = 2, shiftMaxNbCells = 4 (windows of 4 cells, overlap 2), no reordering.  The four
+   answers below are lemon's, recorded on the C++ run of this very circuit (harness/drun.cpp, hook 2): the model makes four calls
+   (row sets {0, 1} and {1, 0}, windows [0;2;3;1] and [3;1] each), every record fits its call, every answer passes the certificate
+   checker, all records are consumed; Circuit::hpwl 19 -> 12 (swaps) -> 5 (shifts: cell 1 moves from x = 6 to x = 10, cell 3 from 5 to 2) *)
+Definition exrun_ps : dparams :=
+  {| dp_nbPasses := 1; dp_localSearchNbNeighbours := 2; dp_localSearchNbRows := 2; dp_shiftNbRows := 2;
+     dp_shiftMaxNbCells := 4; dp_reorderingNbRows := 1; dp_reorderingMaxNbCells := 1 |}.
+Definition exrun_ans1 : shift_answer :=
+  {| sa_cells := [0; 2; 3; 1]%nat;
+     sa_pi := fun n => match n with NCell 0 => (-11) | NCell 2 => (-10) | NCell 3 => (-9) | NCell 1 => (-1) | NL 0 => (-1) | NL 1 => (-11) | NU 1 => (-9) | NL 2 => (-10) | NU 2 => (-10) | NFixed => (-11) | _ => 0 end;
+     sa_flows := [((NCell 3, NCell 0, (-2)), 1); ((NCell 0, NFixed, 0), 1); ((NCell 1, NCell 2, (-2)), 0); ((NCell 2, NFixed, 0), 0); ((NFixed, NCell 3, 9), 0); ((NFixed, NCell 1, 10), 1); ((NCell 1, NL 0, 0), 1); ((NU 0, NCell 1, 0), 0); ((NFixed, NL 0, 11), 0); ((NU 0, NFixed, (-11)), 1); ((NCell 3, NL 1, 0), 0); ((NU 1, NCell 3, 0), 1); ((NFixed, NL 1, 0), 1); ((NU 1, NFixed, 0), 0); ((NCell 0, NL 2, 1), 0); ((NU 2, NCell 0, (-1)), 0); ((NCell 2, NL 2, 0), 1); ((NU 2, NCell 2, 0), 1)] |}.
+Definition exrun_ans2 : shift_answer :=
+  {| sa_cells := [3; 1]%nat;
+     sa_pi := fun n => match n with NCell 3 => (-9) | NCell 1 => (-1) | NL 0 => (-1) | NL 1 => (-11) | NU 1 => (-9) | NFixed => (-11) | _ => 0 end;
+     sa_flows := [((NCell 3, NFixed, (-2)), 1); ((NFixed, NCell 3, 9), 0); ((NCell 1, NFixed, (-3)), 0); ((NFixed, NCell 1, 10), 1); ((NCell 1, NL 0, 0), 1); ((NU 0, NCell 1, 0), 0); ((NFixed, NL 0, 11), 0); ((NU 0, NFixed, (-11)), 1); ((NCell 3, NL 1, 0), 0); ((NU 1, NCell 3, 0), 1); ((NFixed, NL 1, 0), 1); ((NU 1, NFixed, 0), 0)] |}.
+Definition exrun_ans3 : shift_answer :=
+  {| sa_cells := [0; 2; 3; 1]%nat;
+     sa_pi := fun n => match n with NCell 0 => (-11) | NCell 2 => (-10) | NCell 3 => (-9) | NCell 1 => (-1) | NL 0 => (-1) | NL 1 => (-11) | NU 1 => (-9) | NL 2 => (-10) | NU 2 => (-10) | NFixed => (-11) | _ => 0 end;
+     sa_flows := [((NCell 3, NCell 0, (-2)), 1); ((NCell 0, NFixed, 0), 1); ((NCell 1, NCell 2, (-2)), 0); ((NCell 2, NFixed, 0), 0); ((NFixed, NCell 3, 9), 0); ((NFixed, NCell 1, 10), 1); ((NCell 1, NL 0, 0), 1); ((NU 0, NCell 1, 0), 0); ((NFixed, NL 0, 11), 0); ((NU 0, NFixed, (-11)), 1); ((NCell 3, NL 1, 0), 0); ((NU 1, NCell 3, 0), 1); ((NFixed, NL 1, 0), 1); ((NU 1, NFixed, 0), 0); ((NCell 0, NL 2, 1), 0); ((NU 2, NCell 0, (-1)), 0); ((NCell 2, NL 2, 0), 1); ((NU 2, NCell 2, 0), 1)] |}.
+Definition exrun_ans4 : shift_answer :=
+  {| sa_cells := [3; 1]%nat;
+     sa_pi := fun n => match n with NCell 3 => (-9) | NCell 1 => (-1) | NL 0 => (-1) | NL 1 => (-11) | NU 1 => (-9) | NFixed => (-11) | _ => 0 end;
+     sa_flows := [((NCell 3, NFixed, (-2)), 1); ((NFixed, NCell 3, 9), 0); ((NCell 1, NFixed, (-3)), 0); ((NFixed, NCell 1, 10), 1); ((NCell 1, NL 0, 0), 1); ((NU 0, NCell 1, 0), 0); ((NFixed, NL 0, 11), 0); ((NU 0, NFixed, (-11)), 1); ((NCell 3, NL 1, 0), 0); ((NU 1, NCell 3, 0), 1); ((NFixed, NL 1, 0), 1); ((NU 1, NFixed, 0), 0)] |}.
+
+Example c02_run_closed_shift_nonvacuous :
+  params_ok exrun_ps = true /\
+  exists d0 c' exs, from_circuit exrun = DOk d0 /\
+    place_detailed_model_c exrun exrun_nets exrun_ps [exrun_ans1; exrun_ans2; exrun_ans3; exrun_ans4] = ROk (c', exs, []) /\
+    map (fun k => (c_x k, c_y k)) (cells c') = [(0, 0); (10, 2); (1, 2); (2, 0); (11, 3); (0, 0)] /\
+    hpwl_circuit exrun exrun_nets = 19 /\ map (fun e => hpwl_circuit e exrun_nets) exs = [12; 5] /\ hpwl_circuit c' exrun_nets = 5 /\
+    legalb c' = true /\ forallb legalb exs = true /\ orient_okb exrun c' = true /\
+    (* a tampered answer is NOT accepted: with lemon's potential of cell 1 off by one the run stops on the oracle *)
+    place_detailed_model_c exrun exrun_nets exrun_ps
+      [{| sa_cells := sa_cells exrun_ans1; sa_pi := fun n => match n with NCell 1 => 0 | _ => sa_pi exrun_ans1 n end; sa_flows := sa_flows exrun_ans1 |}] = RErr EOracle.
+Proof.
+  split; [reflexivity|]. eexists _, _, _. split; [vm_compute; reflexivity|]. split; [vm_compute; reflexivity|].
+  vm_compute. repeat split; reflexivity.
+Qed.
+
 Print Assumptions c02_swap_exchanges_places.
 Print Assumptions c02_run_while_fuel_suffices.
 Print Assumptions c02_run_walk_fuel_suffices.
@@ -139,3 +219,9 @@ Print Assumptions c02_history_exposes_legal.
 Print Assumptions c02_place_detailed_returns_legal.
 Print Assumptions c04_place_detailed_orient_ok.
 Print Assumptions c02_run_nonvacuous.
+Print Assumptions c02_shift_row_sets_have_no_repetition.
+Print Assumptions c02_run_shifts_is_accepted_history.
+Print Assumptions c02_run_passes_closed_is_accepted_history.
+Print Assumptions c02_place_detailed_closed_returns_legal.
+Print Assumptions c04_place_detailed_closed_orient_ok.
+Print Assumptions c02_run_closed_shift_nonvacuous.
